@@ -796,6 +796,24 @@ int32_t tlsVerify(ssl_t *ssl,
                 PS_FALSE,
                 PS_TRUE);
 
+        /*
+          RFC 5246, 7.4.3: the algorithm the server signs with must be
+          one of those we offered in signature_algorithms (our per-session
+          list, or the defaults the ClientHello was built from). Without
+          this check the server, or a regression in its selection logic,
+          can put an algorithm in force that this client did not enable,
+          e.g. SHA-1 against a client configured for SHA-256 and up.
+        */
+        if (findFromUint16Array(ssl->supportedSigAlgs,
+                        ssl->supportedSigAlgsLen,
+                        sigAlgTls) == PS_FAILURE)
+        {
+            psTraceErrr("Peer signed with a signature algorithm " \
+                    "we did not offer\n");
+            ssl->err = SSL_ALERT_ILLEGAL_PARAMETER;
+            return MATRIXSSL_ERROR;
+        }
+
 # ifdef USE_PKCS1_PSS
         switch (sigAlgTls)
         {
